@@ -563,6 +563,22 @@ Proof.
   - unfold buffered_objects_count. rewrite Hpa2, Hpa1. reflexivity.
 Qed.
 
+(** Both orders in one statement (the name used by DESIGN.md). *)
+Theorem C19_teardown s os :
+  wf s -> (forall o, count_occ Nat.eq_dec os o <= rc s o) ->
+  (exists s1, run_drops s os = Some s1 /\ wf s1 /\
+              dead (teardown_pc s1) /\ buffer (teardown_pc s1) = [] /\
+              (forall o, marks (teardown_pc s1) o = false))
+  /\
+  (exists s2, run_drops (teardown_pc s) os = Some s2 /\ dead s2 /\ buffer s2 = [] /\
+              (forall o, marks s2 o = false) /\ buffered_objects_count s2 = None).
+Proof.
+  intros Hwf Hcnt. split.
+  - destruct (C19_teardown_user_then_pc s os Hwf Hcnt) as (s1 & H1 & H2 & H3).
+    exists s1. cbn zeta in H3. tauto.
+  - apply (C19_teardown_pc_then_user s os Hwf Hcnt).
+Qed.
+
 (** A single drop after teardown, spelled out: a formerly buffered object takes the normal
     path. *)
 Theorem drop_cc_after_teardown_ok s o :
